@@ -47,7 +47,7 @@ class SingleValueRawTokenModel(base.RawTokenModel, RWValue[_V]):
     @value.setter
     def value(self, value: _V) -> None:
         self._value = value
-        self._raw_text = self._format_value(value)
+        self._update_raw_text(self._format_value(value))
 
     @classmethod
     @abc.abstractmethod
